@@ -656,6 +656,9 @@ func ReachableAfterDeep(root *ssa.Function, from, target ssa.Instruction) bool {
 // (transitively) a private helper.
 func RootOf(fn *ssa.Function) *ssa.Function {
 	for i := 0; i < 4; i++ {
+		if isAnchor(fn) {
+			return fn // a function the rule tables name is a root of its own
+		}
 		cs := privateCallSite(fn)
 		if cs == nil {
 			if fn.Parent() != nil {
@@ -715,4 +718,22 @@ func ExpandCond(v ssa.Value) (ssa.Value, func()) {
 			delete(paramBind, p)
 		}
 	}
+}
+
+// isAnchor: fn is one of the unexported functions the rule tables look up by name.
+func isAnchor(fn *ssa.Function) bool {
+	if Current == nil || fn.Parent() != nil {
+		return false
+	}
+	r := ""
+	if fn.Signature.Recv() != nil {
+		r = namedName(deref(fn.Signature.Recv().Type()))
+	}
+	pk := pkgOf(fn)
+	if pk == nil {
+		return false
+	}
+	key := strings.TrimPrefix(pk.Pkg.Path(), ModPath+"/") + "|" + r + "|" + fn.Name()
+	_, ok := Current.Anchors[key]
+	return ok
 }
